@@ -23,6 +23,11 @@ pub struct Scn {
     pub imports: BTreeMap<String, String>,
     /// a module text for the role comparison (sync, exports `out` and a default)
     pub role_module: Option<ProgCase>,
+    /// how the importing program of the role comparison refers to the module: 0 named/default
+    /// import, 1 re-export list between two own exports (no import at all), 2 namespace import,
+    /// 3 `export * as ns` between two own exports
+    #[serde(default)]
+    pub role_main: u8,
     pub host_activity_pm: u32,
     pub fuel: u64,
 }
@@ -92,6 +97,11 @@ impl Check for C19 {
         let variant = if holes == 0 { HoleVariant::Sync } else { HoleVariant::Order };
         let mut case = ProgCase::generate(rng, cfg, variant, "v");
         let mut imports = BTreeMap::new();
+        if rng.chance(0.4) {
+            // console text outside ASCII (the C host receives pointer + byte length)
+            let at = 3.min(case.tree.kids.len());
+            case.tree.kids.insert(at, Node::leaf("console.log(\"naïve ✓ 日本語\", 1, \"é\"); console.error(\"érr 😀\"); console.warn(\"ü\".repeat(3));"));
+        }
         if rng.chance(0.35) {
             case.module_path = Some("/app/main.ts".into());
             // a module has exports: one early, one renamed, one after the main work
@@ -123,13 +133,17 @@ impl Check for C19 {
         } else {
             None
         };
-        Scn { case, imports, role_module, host_activity_pm: *rng.pick(&[20u32, 200, 1000]), fuel: 400_000 }
+        let role_main = rng.below(4) as u8;
+        Scn { case, imports, role_module, role_main, host_activity_pm: *rng.pick(&[20u32, 200, 1000]), fuel: 400_000 }
     }
 
     fn shrink(&self, scn: &Scn) -> Vec<Scn> {
         let mut out = Vec::new();
         if scn.role_module.is_some() {
             out.push(Scn { role_module: None, ..scn.clone() });
+            if scn.role_main != 0 {
+                out.push(Scn { role_main: 0, ..scn.clone() });
+            }
         }
         for c in scn.case.shrink_tree() {
             out.push(Scn { case: c, ..scn.clone() });
@@ -197,30 +211,36 @@ impl Check for C19 {
                 a.exports.iter().find(|(n, _)| n == "renamed_counter").map(|(_, v)| v.clone()),
                 a.exports.iter().find(|(n, _)| n == "plain_counter").map(|(_, v)| v.clone())
             );
+            // the program that uses the module, written against a specifier
+            let main_for = |spec: &str| -> String {
+                match scn.role_main {
+                    1 => format!("export const first: number = 1;\nexport {{ out as o2, default as d2, renamed_counter as r2, plain_counter as p2 }} from \"{spec}\";\nexport const last: number = 2;\n0"),
+                    2 => format!("import * as ns from \"{spec}\";\nexport const first: number = 1;\nexport const o2: string = ns.out;\nexport const d2: number = ns.default;\nexport const r2: number = ns.renamed_counter;\nexport const p2: number = ns.plain_counter;\nexport const last: number = 2;\n0"),
+                    3 => format!("export const first: number = 1;\nexport * as ns from \"{spec}\";\nimport d, {{ out, renamed_counter, plain_counter }} from \"{spec}\";\nexport const o2: string = out;\nexport const d2: number = d;\nexport const r2: number = renamed_counter;\nexport const p2: number = plain_counter;\nexport const last: number = 2;\n0"),
+                    _ => format!("import d, {{ out, renamed_counter, plain_counter }} from \"{spec}\";\nexport const first: number = 1;\nexport const o2: string = out;\nexport const d2: number = d;\nexport const r2: number = renamed_counter;\nexport const p2: number = plain_counter;\nexport const last: number = 2;\n0"),
+                }
+            };
+            let view_of = |o: &Outcome| -> String {
+                let names: Vec<&str> = o.exports.iter().map(|(n, _)| n.as_str()).filter(|n| *n != "ns").collect();
+                format!(
+                    "{:?}|{:?}|{:?}|{:?}",
+                    o.exports.iter().find(|(n, _)| n == "o2").map(|(_, v)| v.clone()),
+                    o.exports.iter().find(|(n, _)| n == "d2").map(|(_, v)| v.clone()),
+                    o.exports.iter().find(|(n, _)| n == "r2").map(|(_, v)| v.clone()),
+                    o.exports.iter().find(|(n, _)| n == "p2").map(|(_, v)| v.clone())
+                ) + &format!("|first={:?}|last={:?}|names={:?}", o.exports.iter().find(|(n, _)| n == "first").map(|(_, v)| v.clone()), o.exports.iter().find(|(n, _)| n == "last").map(|(_, v)| v.clone()), names)
+            };
+            let a_view = format!("{}|first=Some(\"1\")|last=Some(\"2\")|names=[\"d2\", \"first\", \"last\", \"o2\", \"p2\", \"r2\"]", a_view);
             // (b) host-provided dependency
-            let main_b = "import d, { out, renamed_counter, plain_counter } from \"/m/T.ts\";\nexport const o2: string = out;\nexport const d2: number = d;\nexport const r2: number = renamed_counter;\nexport const p2: number = plain_counter;\n0";
-            let mut sb = mk(main_b.to_string(), Some("/m/main_b.ts"));
+            let mut sb = mk(main_for("/m/T.ts"), Some("/m/main_b.ts"));
             sb.modules.insert("/m/T.ts".into(), text.clone());
             let b = run_solo(&sb);
-            let b_view = format!(
-                "{:?}|{:?}|{:?}|{:?}",
-                b.exports.iter().find(|(n, _)| n == "o2").map(|(_, v)| v.clone()),
-                b.exports.iter().find(|(n, _)| n == "d2").map(|(_, v)| v.clone()),
-                b.exports.iter().find(|(n, _)| n == "r2").map(|(_, v)| v.clone()),
-                b.exports.iter().find(|(n, _)| n == "p2").map(|(_, v)| v.clone())
-            );
+            let b_view = view_of(&b);
             // (c) internal source module
-            let main_c = "import d, { out, renamed_counter, plain_counter } from \"app:T\";\nexport const o2: string = out;\nexport const d2: number = d;\nexport const r2: number = renamed_counter;\nexport const p2: number = plain_counter;\n0";
-            let mut sc = mk(main_c.to_string(), Some("/m/main_c.ts"));
+            let mut sc = mk(main_for("app:T"), Some("/m/main_c.ts"));
             sc.internal_sources.insert("app:T".into(), text.clone());
             let c = run_solo(&sc);
-            let c_view = format!(
-                "{:?}|{:?}|{:?}|{:?}",
-                c.exports.iter().find(|(n, _)| n == "o2").map(|(_, v)| v.clone()),
-                c.exports.iter().find(|(n, _)| n == "d2").map(|(_, v)| v.clone()),
-                c.exports.iter().find(|(n, _)| n == "r2").map(|(_, v)| v.clone()),
-                c.exports.iter().find(|(n, _)| n == "p2").map(|(_, v)| v.clone())
-            );
+            let c_view = view_of(&c);
             let ok_a = a.result.starts_with("complete:");
             if ok_a {
                 for (name, view, o) in [("provided_dependency", &b_view, &b), ("internal_source_module", &c_view, &c)] {
